@@ -543,7 +543,7 @@ fn equality(rep: &Reporter) -> EqStats {
             if j != first_json || b != first_bin {
                 report(
                     "response-serialize/header-order",
-                    format!("two freshly built crux_http::Response #{i} {x:?} serialize differently: {first_json} vs {j} (evaluation {n} of {N})"),
+                    format!("two freshly built crux_http::Response #{i} {x:?} serialize differently: JSON {first_json} vs {j}; bincode {first_bin:?} vs {b:?} (evaluation {n} of {N})"),
                     json!({"kind": "ResponseSerialize", "left": i}),
                 );
                 break;
